@@ -108,6 +108,10 @@ def parse_tlc(r, rc):
         if m:
             r.generated = int(m.group(1))
             r.distinct = int(m.group(2))
+        m = re.search(r"The number of states generated: (\d+)", line)
+        if m:
+            r.generated = int(m.group(1))
+            r.distinct = max(r.distinct, int(m.group(1)))
         m = re.search(r"The depth of the complete state graph search is (\d+)", line)
         if m:
             r.depth = int(m.group(1))
